@@ -88,10 +88,18 @@ pub struct Profile {
     pub liveness: bool,
     /// extra deterministic cases run before the random ones (exhaustive enumerations); the bool
     /// says whether the list enumerates a finite space completely
-    pub enumerate: Option<fn(Tier, bool) -> (Vec<Scenario>, bool)>,
+    pub enumerate: Option<fn(Tier, bool) -> EnumSpec>,
     /// extra non-scenario checks (direct unit-level enumeration), R only
     pub extra: Option<fn(Tier) -> ExtraResult>,
     pub assumptions: &'static [&'static str],
+}
+
+/// A deterministic list of cases, produced lazily by index.
+pub struct EnumSpec {
+    pub n: usize,
+    pub make: Box<dyn Fn(usize) -> Scenario + Send + Sync>,
+    /// the list enumerates a finite space completely
+    pub exhaustive: bool,
 }
 
 #[derive(Default)]
